@@ -54,7 +54,7 @@ def seq_case(draw, kinds=("Array", "List", "Tuple"), ets=("Int", "String"), max_
         elif o == "resize":
             ops.append([o, draw(st.sampled_from(["zero", "less", "same", "more"])), draw(st.integers(0, 1000))])
         elif o == "sort":
-            ops.append([o, draw(st.sampled_from(["lt", "gt"]))])
+            ops.append([o, draw(st.sampled_from(["lt", "gt", "le", "ge"]))])      # strict and non-strict comparison functions
         elif o == "copy":
             ops.append([o])
         elif o == "pushn":
@@ -299,7 +299,7 @@ class SeqRun:
             P.add("sortby %s %s" % (self.c, op[1]))
             if len(set(m)) < len(m):
                 self.flags["sort_dups"] = True
-            m.sort(key=val_order, reverse=(op[1] == "gt"))
+            m.sort(key=val_order, reverse=(op[1] in ("gt", "ge")))
             self.events.add("sort")
         elif o == "copy":
             P.add("copy %%%d %s" % (self.alt, self.c), lambda ob: None if ob.startswith("ok") else "copy failed: " + ob)
